@@ -31,6 +31,7 @@ import CatVerif.Proofs.Quiesce
 import CatVerif.Proofs.Log
 import CatVerif.Proofs.Stutter
 import CatVerif.Proofs.DispatchIO
+import CatVerif.Proofs.Steps
 namespace Cat
 open St
 
@@ -121,5 +122,10 @@ example (D : Desc) : StutterU D (init D [] [] []) {} ∧ StutterC D (init D [] [
 /-- non-vacuity: a writing state with a refusing output -/
 example : ∃ (s : St) (i : SvcIn), s.state = .flushWrite ∧ i.wr = false ∧ (writeByte default s .cmd).1 ≠ 0 :=
   ⟨{ (default : St) with state := .flushWrite, writeSrc := .nl 1 }, { wr := false }, rfl, rfl, by decide⟩
+
+/-- `read_cmd_char` — the only place where input is taken: a refused read returns at once and changes
+nothing; an accepted byte is stored and, outside argument collection, case-folded — is, in the model,
+the function whose statements are re-recognised in the source on every run (translator item T14) -/
+theorem C12_read_generated : readCmdChar = Gen.read_cmd_char := readCmdChar_generated
 
 end Cat
